@@ -180,10 +180,16 @@ where
                 .expect("build runtime"),
         };
         let out = runtime.block_on(f(m2));
-        // Let detached tasks (e.g. GarbageCollectionLock::drop) run to completion.
+        // Let detached tasks (e.g. the lock removal spawned by GarbageCollectionLock::drop)
+        // run to completion, as they would in a process that keeps its runtime alive.
+        let handle = runtime.handle().clone();
         runtime.block_on(async {
-            for _ in 0..4 {
+            for _ in 0..2000 {
                 tokio::task::yield_now().await;
+                if handle.metrics().num_alive_tasks() == 0 {
+                    break;
+                }
+                tokio::time::sleep(std::time::Duration::from_millis(1)).await;
             }
         });
         drop(runtime);
@@ -274,6 +280,7 @@ pub struct ChangeRec {
     pub sigil: char,
 }
 
+#[derive(Debug)]
 pub struct BackupOut {
     pub stats: BackupStats,
     pub changes: Vec<ChangeRec>,
